@@ -20,8 +20,12 @@ import (
 	"math/rand"
 	"os"
 	"reflect"
+	"runtime"
 	"sort"
 	"strconv"
+	"strings"
+	"sync/atomic"
+	"time"
 
 	"github.com/marekgalovic/anndb/index"
 	amath "github.com/marekgalovic/anndb/math"
@@ -97,10 +101,13 @@ type driver struct {
 	sm   *storage.VerifPartitionSM
 	qs   []int
 	zero hx.Meta
+	// a recovered panic may have left locks of the index held: nothing more is run on this index
+	poisoned bool
 }
 
 func (d *driver) reset() {
 	d.sm = storage.NewVerifPartitionSM(d.cfg.Index.New(d.u))
+	d.poisoned = false
 }
 
 func (d *driver) resetEvent(hid int) event {
@@ -115,6 +122,11 @@ func (d *driver) observe(ev *event) {
 	ev.St = &st
 	ev.Sr = hx.Probe(d.sm.Index(), d.u, d.cfg.Keys, d.qs, d.cfg.Ks)
 	ev.Full = 1
+	for _, r := range ev.Sr {
+		if strings.HasPrefix(r.Err, "panic:") {
+			d.poisoned = true
+		}
+	}
 }
 
 // exec applies one abstract op to the real state machine.
@@ -131,6 +143,11 @@ func (d *driver) exec(o hx.Op, hid, i int, full bool) event {
 			ev.Items[k].Meta = d.zero
 		}
 	}
+	if d.poisoned {
+		ev.Res, ev.Err = "panic", "not run: an earlier panic may have left locks of this index held"
+		return ev
+	}
+	progress()
 	if o.Op == "saveload" {
 		return d.saveload(ev, hid, full)
 	}
@@ -151,6 +168,7 @@ func (d *driver) exec(o hx.Op, hid, i int, full bool) event {
 	ev.Res, ev.Errs = oc.Res, oc.Errs
 	if out.Panic != "" {
 		ev.Err = out.Panic
+		d.poisoned = true
 	} else if out.ProcessErr != "" {
 		ev.Err = out.ProcessErr
 	}
@@ -227,7 +245,31 @@ func newDriver(c Cfg, u *hx.Universe) *driver {
 	return d
 }
 
+// stall watchdog: if no operation starts for 60 s the process dumps its goroutines and exits 7
+var lastProgress int64
+
+func progress() { atomic.StoreInt64(&lastProgress, time.Now().UnixNano()) }
+
+func watchdog() {
+	progress()
+	go func() {
+		for {
+			time.Sleep(5 * time.Second)
+			if time.Since(time.Unix(0, atomic.LoadInt64(&lastProgress))) > 60*time.Second {
+				buf := make([]byte, 1<<20)
+				os.Stderr.Write(buf[:runtime.Stack(buf, true)])
+				fmt.Fprintln(os.Stderr, "STALL: no operation started for 60 s")
+				os.Exit(7)
+			}
+		}
+	}()
+}
+
 func main() {
+	switch os.Args[1] {
+	case "replay", "random", "explore":
+		watchdog()
+	}
 	switch os.Args[1] {
 	case "ranks":
 		np, _ := strconv.Atoi(os.Args[3])
@@ -364,7 +406,9 @@ func replay(c Cfg, in, out, driftOut string) {
 			_, real := hx.Project(d.sm.Index(), u, c.Keys)
 			exp := canonOfModel(h.St)
 			what := ""
-			if !reflect.DeepEqual(real, exp) {
+			if d.poisoned {
+				what = "panic"
+			} else if !reflect.DeepEqual(real, exp) {
 				what = "graph"
 			} else {
 				// probe searches: model returns object sets; compare as sets of points
@@ -942,6 +986,13 @@ func random(c Cfg, n, maxlen int, seed int64, out, rankOut string) {
 		}
 		if c.Index.Metric == "cosine" {
 			v[0] += 0.125 // avoid the zero vector
+			if i >= 2 && i%3 == 2 {
+				// same direction as an earlier point, another norm: 1 - cos is zero up to float32 rounding
+				s := []float32{3, 0.3, 7, 1.7}[rng.Intn(4)]
+				for j := range v {
+					v[j] = vecs[i-2][j] * s
+				}
+			}
 		}
 		vecs[i] = v
 	}
